@@ -190,5 +190,35 @@ func Corpus() []CorpusCase {
 			p.HTTPRule([]gatewayv1.HTTPRouteMatch{p.PathMatch("PathPrefix", "/")}, two(1)...)))
 		mk("https-listener-without-hostname", objs)
 	}
+	// HTTPS and TLS (passthrough) listener on ONE port: the HTTPS servers of the port move to the unix socket
+	// unix:/var/run/nginx/https<port>.sock behind the stream server. Every IP family, with and without routes
+	// (seeded change C03-r3m3: an IPv6 `listen [::]:unix:…` of the default SSL server).
+	for _, fam := range []string{"ipv4", "ipv6", "dual"} {
+		for _, withRoutes := range []bool{true, false} {
+			objs := []client.Object{p.Namespace("ns", nil), p.Service("ns", "svc0", 80), p.EndpointSlice("ns", "svc0", "s", []int32{80}, "10.0.0.1"),
+				p.TLSSecret("ns", "tls", 1)}
+			gc := p.GatewayClass(p.DefaultClass, p.DefaultController, 1)
+			if fam != "dual" { // dual is the default of a GatewayClass without NginxProxy
+				np := &ngfAPI.NginxProxy{ObjectMeta: p.Meta("", "np", 1)}
+				np.Spec.IPFamily = ptr(map[string]ngfAPI.IPFamilyType{"ipv4": ngfAPI.IPv4, "ipv6": ngfAPI.IPv6}[fam])
+				gc.Spec.ParametersRef = &gatewayv1.ParametersReference{Group: "gateway.nginx.org", Kind: "NginxProxy", Name: "np"}
+				objs = append(objs, np)
+			}
+			objs = append(objs, gc, p.Gateway("ns", "gw", p.DefaultClass, 2,
+				p.Listener{Name: "http", Port: 80, Protocol: "HTTP", FromNS: "All"},
+				p.Listener{Name: "https", Port: 443, Protocol: "HTTPS", Hostname: "cafe.example.com", CertRefs: []string{"tls"}, FromNS: "All"},
+				p.Listener{Name: "tls", Port: 443, Protocol: "TLS", Hostname: "app.tls.org", FromNS: "All"}))
+			name := "https-and-tls-share-port-" + fam
+			if withRoutes {
+				objs = append(objs, p.HTTPRoute("ns", "hr", 3, []gatewayv1.ParentReference{p.ParentRef("ns", "gw", "https")}, []string{"cafe.example.com"},
+					p.HTTPRule([]gatewayv1.HTTPRouteMatch{p.PathMatch("PathPrefix", "/")}, two(1)...)))
+				objs = append(objs, p.TLSRoute("ns", "tr", 4, []gatewayv1.ParentReference{p.ParentRef("ns", "gw", "tls")}, []string{"app.tls.org"},
+					p.Backend{Ref: "svc0", Port: 80, Weight: -1}))
+			} else {
+				name += "-no-routes"
+			}
+			mk(name, objs)
+		}
+	}
 	return out
 }
